@@ -28,6 +28,7 @@ def gen_cases(ctx):
         for f in sorted(cdir.glob("*.graphql")):
             cases.append(("corpus/" + f.name, f.read_text()))
     cases += G.handwritten()
+    cases += G.deep_cases()
     cases += G.value_matrix() + G.covariance_matrix() + G.args_matrix() + G.transitive_matrix()
     bases = [("rich", G.base_rich()), ("implicit", G.base_implicit()), ("redef", G.base_redef())]
     nrand = 10 if ctx.tier == "quick" else 120
@@ -121,6 +122,11 @@ def run(ctx):
 
     rows = ctx.correspond(impl, model, "c14_validate", lines, compare=compare, describe=describe,
                           classify=classify, nontrivial=lambda c, o: True)
+    # ---- the literal models of the two cycle searches (Schema/Cycles.v) against the diagnostics of the code
+    crows = ctx.correspond(impl, model, "c14_cycles", lines, describe=describe, nontrivial=lambda c, o: "1" in o)
+    cf = ctx.cov["families"]["c14_cycles"]
+    for key in ("ri=1", "rd=1", "deep=1"):
+        cf[key] = sum(1 for _, i, _ in crows if key in i)
     # ---- evidence
     fam = ctx.cov["families"]["c14_validate"]
     fam["accepted"] = sum(1 for _, i, _ in rows if verdict(i) == "valid")
